@@ -128,6 +128,119 @@ def check_lin(built, tag, sf, sg, timeout):
     return [ob.unknown("no congruence certificate (%s)" % res.info.get("reason"), "z3-int", res.seconds)]
 
 
+def check_lindiv(built, tag, sf, sg, timeout):
+    f = F.BYTAG[tag]
+    n = f.n
+    NB = 64 * n
+    drv = "drv_%s_lindiv" % tag
+    name = "default:%s.lindiv31abs[f%s,g%s]" % (tag, "<0" if sf else ">=0", "<0" if sg else ">=0")
+    ob = Obligation(name, "L", ["%s::lindiv31abs (%s)" % (HOSTS[tag][1], HOSTS[tag][0])],
+                    "all a, b in [0, 2^%d) (as in the GCD) and |f|,|g| <= 2^31 in this sign case with a*f+b*g divisible by 2^31 and the quotient fitting %d bits" % (NB - 1, NB - 1),
+                    "result == |a*f+b*g| / 2^31 exactly, returned word is all-ones iff the sum is negative (else 0)")
+    ft, fv = signed_arg("f", sf, 1 << 31)
+    gt, gv = signed_arg("g", sg, 1 << 31)
+    # operands as used by the GCD: non-negative, top bit clear
+    av = [T.var("a%d" % i, 64) for i in range(n - 1)] + [T.var("a%d" % (n - 1), 64, 0, (1 << 63) - 1)]
+    bv = [T.var("b%d" % i, 64) for i in range(n - 1)] + [T.var("b%d" % (n - 1), 64, 0, (1 << 63) - 1)]
+    try:
+        ex, ins, outs = sym_run(built, drv, concrete={"f": ft, "g": gt, "a": av, "b": bv})
+    except ExecError as e:
+        return [ob.unknown("executor: %s" % e)]
+    r = rng("lindiv", tag, sf, sg)
+    M64 = (1 << 64) - 1
+    HALF = 1 << (NB - 1)
+
+    def inputs(it):
+        while True:
+            fa = r.choice([1, 1 << 31, r.randrange(1, 1 << 31), 3])
+            ga = r.choice([1, (1 << 31) - 1, r.randrange(1, 1 << 31) | 1, 5]) | 1
+            Fs, Gs = (-fa if sf else fa), (-ga if sg else ga)
+            bits = r.choice([NB - 40, NB - 40, 200, 64, 31, 10])
+            A = r.randrange(0, 1 << bits)
+            B0 = r.randrange(0, 1 << bits)
+            # adjust B so that A*F + B*G == 0 mod 2^31 (G odd)
+            need = (-(A * Fs + B0 * Gs)) % (1 << 31)
+            B = B0 + (need * pow(Gs % (1 << 31), -1, 1 << 31)) % (1 << 31)
+            Tt = A * Fs + B * Gs
+            if Tt % (1 << 31) == 0 and abs(Tt >> 31) < HALF and 0 <= B < HALF:
+                return {"a": int_limbs(A % (1 << NB), n), "b": int_limbs(B % (1 << NB), n),
+                        "f": Fs % (1 << 64), "g": Gs % (1 << 64)}
+
+    def env_of(inp):
+        env = {}
+        for nm in ("a", "b"):
+            for i, w in enumerate(inp[nm]):
+                env["%s%d" % (nm, i)] = w
+        env[fv.aux[0]] = (-inp["f"]) % (1 << 64) if sf else inp["f"]
+        env[gv.aux[0]] = (-inp["g"]) % (1 << 64) if sg else inp["g"]
+        return env
+
+    def signed(x, bits):
+        return x - (1 << bits) if x >> (bits - 1) else x
+
+    def native_ok(inp):
+        nat = built.native(drv, inp)
+        Tt = signed(limbs_int(inp["a"]), NB) * signed(inp["f"], 64) + signed(limbs_int(inp["b"]), NB) * signed(inp["g"], 64)
+        if Tt % (1 << 31) or abs(Tt >> 31) >= HALF or limbs_int(inp["a"]) >= HALF or limbs_int(inp["b"]) >= HALF:
+            return True, {}
+        exp = abs(Tt) >> 31
+        ok = limbs_int(nat["out"]) == exp and nat["ng"][0] == (M64 if Tt < 0 else 0)
+        return ok, {"inputs": {k: hexl(v) for k, v in inp.items()}, "native": hexl(nat["out"]), "ng": hex(nat["ng"][0]),
+                    "expected": hex(exp)}
+    for it in range(16):
+        inp = inputs(it)
+        env = env_of(inp)
+        nat = built.native(drv, inp)
+        if list(T.evaluate(outs["out"], env)) != list(nat["out"]) or T.evaluate(outs["ng"], env)[0] != nat["ng"][0]:
+            raise MachineryError("translator validation failed for %s: %r" % (drv, inp))
+    enc = IntEnc()
+    R = word_form(enc, outs["out"], 64)
+    NG = enc.form(outs["ng"][0])[0]
+    A = word_form(enc, ins["a"], 64)
+    B = word_form(enc, ins["b"], 64)
+    # signed values of a, b: subtract 2^NB * top bit
+    _, _, _, ta, _, _ = enc.split(enc.form(ins["a"][n - 1])[0], 0, M64, 63)
+    _, _, _, tb, _, _ = enc.split(enc.form(ins["b"][n - 1])[0], 0, M64, 63)
+    As = A - ta.scale(1 << NB)
+    Bs = B - tb.scale(1 << NB)
+    Ff = enc.form(fv)[0]
+    Gf = enc.form(gv)[0]
+    Tf = enc.product(As, Ff).scale(-1 if sf else 1) + enc.product(Bs, Gf).scale(-1 if sg else 1)
+    Bn = enc.as_mask(NG, 64)
+    if Bn is None:
+        return [ob.unknown("returned sign word is not a syntactic mask in the encoding")]
+    z, _, _ = enc.bool_times(Bn, R, 0, (1 << NB) - 1)
+    signedR = R - z.scale(2)           # R * (1 - 2*neg)
+    pre = ["(= (mod %s %d) 0)" % (Tf.smt(), 1 << 31),
+           "(< %s %d)" % (Tf.smt(), HALF << 31), "(> %s (- %d))" % (Tf.smt(), HALF << 31)]
+    samples = []
+    for it in range(48):
+        samples.append(enc.eval_atoms(env_of(inputs(it))))
+    try:
+        enc.validate_on(samples[0], pre)
+    except AssertionError as e:
+        raise MachineryError("encoder validation failed for %s: %s" % (drv, e))
+    BIGQ = 1 << (NB + 400)      # the claim is an exact integer identity: the modulus is out of reach
+    res = PR.prove_congruence(enc, signedR.scale(1 << 31), Tf, BIGQ, extra=pre, timeout=timeout, samples=samples)
+    if res.status == "proved":
+        # sign word: negative sum <=> all-ones (zero sum counts as non-negative)
+        r2 = PR.prove(enc, "(and (=> (< %s 0) (= %s 1)) (=> (> %s 0) (= %s 0)))" % (Tf.smt(), Bn.smt(), Tf.smt(), Bn.smt()),
+                      extra=pre + ["(= %s %s)" % (signedR.scale(1 << 31).smt(), Tf.smt())], timeout=timeout)
+        if r2.status == "proved":
+            return [ob.ok("z3-int (%d lemmas)" % len(res.info.get("lemmas", [])), res.seconds + r2.seconds, res.queries + 1)]
+        why = "sign word: %s" % r2.status
+    else:
+        why = "no certificate (%s)" % res.info.get("reason")
+    for it in range(400):
+        inp = inputs(it)
+        ok, det = native_ok(inp)
+        if not ok:
+            det["key"] = "%s.lindiv31abs" % tag
+            det["found_by"] = "boundary replay after " + why
+            return [ob.fail(det, "z3-int+replay", res.seconds)]
+    return [ob.unknown(why, "z3-int", res.seconds)]
+
+
 def run(tier, only=None):
     t0 = time.time()
     tags = [t for t in HOSTS if (tier == "thorough" or t in QUICK) and (not only or t in only)]
@@ -136,17 +249,20 @@ def run(tier, only=None):
         ds += lin_drivers(t)
     built = build(ds, tag="C12-default")
     timeout = 120 if tier == "quick" else 900
-    items = [(t, sf, sg) for t in tags for sf in (0, 1) for sg in (0, 1)]
+    items = [(k, t, sf, sg) for k in ("lin", "lindiv") for t in tags for sf in (0, 1) for sg in (0, 1)
+             if not (k == "lindiv" and t == "gf448" and (sf or sg)) or only]
 
     def work(it):
-        return check_lin(built, it[0], it[1], it[2], timeout)
+        if it[0] == "lin":
+            return check_lin(built, it[1], it[2], it[3], timeout)
+        return check_lindiv(built, it[1], it[2], it[3], timeout)
     res = pmap(work, items, nproc=NCPU, timeout=timeout * 10)
     obs, merr = [], None
     for it, (st, val) in zip(items, res):
         if st == "ok":
             obs.extend(val)
         else:
-            o = Obligation("default:%s.lin[%d,%d]" % it, "L")
+            o = Obligation("default:%s.%s[%d,%d]" % (it[1], it[0], it[2], it[3]), "L")
             o.unknown("%s: %s" % (st, str(val)[-400:]))
             obs.append(o)
             if "MachineryError" in str(val):
@@ -154,10 +270,11 @@ def run(tier, only=None):
     built.close()
     return finish("C12", tier, obs, t0,
                   functions_encoded=sorted(set(fn for o in obs for fn in o.functions)),
-                  bounds={"lin": "all u, v (all limb patterns); all f, g with |f|,|g| <= 2^62, one obligation per sign case"},
+                  bounds={"lin": "all u, v (all limb patterns); all f, g with |f|,|g| <= 2^62, one obligation per sign case",
+                          "lindiv31abs": "all a, b in [0, 2^(bits-1)) as in the GCD; |f|,|g| <= 2^31 per sign case; exact-division and fit preconditions as documented"},
                   assumptions=["LLVM IR semantics as implemented in engines/llsym (validated natively each run)",
                                "abstract partial products (sound over-approximation)"],
                   outside=["end-to-end x/y*y == x, Legendre symbol value, square roots: convergence of the approximate "
                            "binary GCD and exponentiation chains are not bounded solver questions (DESIGN 3 C12)",
-                           "lindiv31abs, montylin (Montgomery types), batch_invert, binary-field inversion/sqrt/trace: not posed yet"],
+                           "lindiv31abs of GF448 with a negative factor (no certificate within budget); montylin / lindiv31abs of the Montgomery types; batch_invert; binary-field inversion/sqrt/trace: not posed"],
                   machinery_error=merr)
